@@ -56,7 +56,7 @@ def run_functor_programs(ck):
   from props import c04
   progs, seen = [], set()
   tries = 0
-  n = ck.budget(24, 400)
+  n = ck.budget(24, 200)
   while len(progs) < n and tries < 20 * n:
     tries += 1
     p = c04.gen_case(ck.rng)
@@ -98,9 +98,9 @@ def run_functor_programs(ck):
 def run(ck):
   run_corpus(ck)
   run_functor_programs(ck)
-  n = ck.budget(26, 600)
+  n = ck.budget(26, 300)
   made = semcheck.make_programs(ck, n, MASK)
-  made += semcheck.make_programs(ck, ck.budget(14, 300), None, {}, builder=templates.build)
+  made += semcheck.make_programs(ck, ck.budget(14, 150), None, {}, builder=templates.build)
   jobs, meta = [], []
   for pr, model in made:
     rng = ck.rng
